@@ -234,7 +234,7 @@ pub fn lines_to_text(lines: &Value) -> Result<String> {
 	Ok(out)
 }
 
-/// text -> abstract line records (the trusted "line splitter"); does not unescape.
+/// text -> abstract line records (the trusted "line splitter"); inverse of `lines_to_text`.
 pub fn text_to_lines(text: &str) -> Value {
 	let mut out = vec![];
 	for l in text.split('\n') {
@@ -242,6 +242,7 @@ pub fn text_to_lines(text: &str) -> Value {
 		let ind = l.chars().take_while(|c| *c == '\t').count();
 		let mut cells: Vec<&str> = l[ind..].split('\t').collect();
 		let tag = cells.remove(0);
+		let cells: Vec<String> = cells.into_iter().map(|c| c.replace("\\n", "\n")).collect();
 		out.push(json!({"ind": ind, "tag": tag, "cells": cells}));
 	}
 	Value::Array(out)
